@@ -188,6 +188,14 @@ class Folder:
         if isinstance(f, ast.Attribute) and f.attr in ("replace", "lower", "upper", "strip") and isinstance(f.value, ast.Constant):
             args = [self.eval(a, mod, env, func) for a in e.args]
             return getattr(f.value.value, f.attr)(*args)
+        if isinstance(f, ast.Attribute) and f.attr == "format" and not any(k.arg is None for k in e.keywords):
+            tmpl = self.eval(f.value, mod, env, func)
+            if isinstance(tmpl, str):
+                args = [self.eval(a, mod, env, func) for a in e.args]
+                kws = {k.arg: self.eval(k.value, mod, env, func) for k in e.keywords}
+                if all(isinstance(x, (str, int)) for x in list(args) + list(kws.values())):
+                    return tmpl.format(*args, **kws)
+            raise Unknown("format of non-constant")
         target = self.eval(f, mod, env, func)
         if isinstance(target, tuple) and target[0] == "ext":
             name = target[1]
